@@ -100,12 +100,13 @@ func ReceiveFeedback(item *models.Item) error {
 		panic("item is not a seed")
 	}
 
-	item.SetSource(models.ItemSourceFeedback)
-	_, loaded := globalReactor.stateTable.Swap(item.GetID(), item)
-	if !loaded {
+	if _, loaded := globalReactor.stateTable.Load(item.GetID()); !loaded {
 		// An item sent to the feedback channel should be present on the state table, if not present reactor should error out
+		// (without tracking it: a Swap here would leave the unknown item in the state table with no token backing it)
 		return ErrFeedbackItemNotPresent
 	}
+	item.SetSource(models.ItemSourceFeedback)
+	globalReactor.stateTable.Store(item.GetID(), item)
 	select {
 	case <-globalReactor.ctx.Done():
 		return ErrReactorShuttingDown
@@ -121,6 +122,18 @@ func ReceiveFeedback(item *models.Item) error {
 func ReceiveInsert(item *models.Item) error {
 	if globalReactor == nil {
 		return ErrReactorNotInitialized
+	}
+
+	// A stopped or frozen reactor accepts nothing: check first, because the select below
+	// picks at random among ready cases and a free token is usually ready too.
+	select {
+	case <-globalReactor.ctx.Done():
+		logger.Debug("received item on shutting down reactor", "item", item.GetShortID())
+		return ErrReactorShuttingDown
+	case <-globalReactor.freezeCtx.Done():
+		logger.Debug("received item on frozen reactor", "item", item.GetShortID())
+		return ErrReactorFrozen
+	default:
 	}
 
 	select {
